@@ -36,7 +36,7 @@ CHECKS.update({
    ref="DESIGN.md section 4, C02"),
  "C10": dict(level="proof",
    text="Token references and literals are proved to match exactly the first token from the raw cursor that is EOF, satisfies the node's own predicate (type equality; typed/case-folded literal comparison) or is not elided, to consume through that token with FastForward and to leave everything untouched otherwise; negation consumes exactly one non-elided token with Next; PeekAny/FastForward/Next/Peek contracts (C12) make every other observation a function of the non-elided sequence. The whole-run statement is additionally decided within a bound by the grammar-meaning differential (bounded stand-in in the same evidence file, never counted as proved): every small grammar x input x lookahead is run through the real parser and through a reference interpreter of the ordered-choice, bounded-backtracking meaning written from the property text.",
-   note=TRUST + "The closure passed to PeekAny is linked to its body by a generated axiom; strings.EqualFold is an uninterpreted function. The whole-run statement (two inputs with equal non-elided sequences drive identical runs) is a paper lemma. Open known finding F6 (bounded check 'capture token run', printed as KNOWN-FINDING on every run): capture token runs start at the raw cursor, so a lexer.Token / []lexer.Token field may begin with an elided token.",
+   note=TRUST + "The closure passed to PeekAny is linked to its body by a generated axiom; strings.EqualFold is an uninterpreted function. The whole-run statement (two inputs with equal non-elided sequences drive identical runs) is a paper lemma. A capture's token run starts at the first token the capture matched (F6, found by the bounded check 'capture token run', repaired; proved for references and literals through the firstMatch clauses of the node contract, bounded for the rest).",
    ref="DESIGN.md section 4, C10"),
  "C11": dict(level="proof",
    text="strct.Parse is proved to record Pos from the first non-elided token at the node's start (&tokens[nextCursor] at entry), EndPos from the raw token just after the last consumed one (&tokens[rawCursor] after the body) and Tokens == tokens[start:rawCursor] with start the raw cursor at entry and start <= end (Range never panics); capture.Parse hands Defer exactly tokens[start:rawCursor]; cursor monotonicity of every node (interface contract) gives nesting and ordering of child runs. The reflection half (which of Pos/EndPos/Tokens a node declares, with which convertible type, directly or embedded) is explored by the bounded node-shapes stand-in.",
@@ -48,7 +48,7 @@ CHECKS.update({
    ref="DESIGN.md section 4, C06"),
  "C01": dict(level="proof",
    text="Operator-local obligations only: leaves match exactly their predicate (C10); sequence runs children in list order on the same context, first-child non-match leaves everything untouched, a later one is an UnexpectedTokenError; disjunction/union try alternatives in index order on fresh branches and adopt exactly the first success; group iterates on fresh branches; negation/lookahead test on a branch (negation then takes exactly one token); capture defers exactly once iff its child produced a value; Stop's exact threshold; parseOne's trailing-token rule. The global equality 'parse result == denotational meaning' is NOT claimed. Build is proved to leave the lookahead and lexer the options chose in force, parseModifier to wrap its operand in a fresh group of exactly the modifier's mode without altering the operand, a '!' group to succeed only after consuming input, setCaseInsensitiveTokens to mark every token type whose symbol was declared case-insensitive. The whole-run statement is additionally decided within a bound by the grammar-meaning differential (bounded stand-in in the same evidence file, never counted as proved): every small grammar x input x lookahead is run through the real parser and through a reference interpreter of the ordered-choice, bounded-backtracking meaning written from the property text.",
-   note=TRUST + "Composition of the operator contracts into the whole-grammar meaning is not machine-checked; setField/conform value semantics are under C17. Open known finding F6 (bounded check 'capture token run'): lexer.Token / []lexer.Token captures start at a preceding elided token.",
+   note=TRUST + "Composition of the operator contracts into the whole-grammar meaning is not machine-checked; setField/conform value semantics are under C17.",
    ref="DESIGN.md section 4, C01"),
 })
 
@@ -59,7 +59,7 @@ CHECKS.update({
    ref="DESIGN.md section 4, C15"),
  "C17": dict(level="proof",
    text="sizeOfKind is proved equal to the bit-size table of the property for all eleven numeric kinds (and its panic unreachable from conform); conform is proved to call ParseInt/ParseUint/ParseFloat exactly for the signed/unsigned/float kinds with base 0 and bitSize == bitsOf(kind), to store exactly the value strconv returned and to return (nil, err) on a conversion error; setField is proved to join the captured values (not anything else) before converting a scalar, to locate conversion errors at tokens[0].Pos and to have no index panic; a bounded differential check against strconv over real struct fields is reported in the same evidence file (bounded, not proof).",
-   note=TRUST + "reflect and strconv are opaque stubs (function symbols); type assertions on reflection values in setField are assumed. Open known finding F6 (bounded check 'capture token run', KNOWN-FINDING on every run): the position of a conversion error is that of a preceding elided token.",
+   note=TRUST + "reflect and strconv are opaque stubs (function symbols); type assertions on reflection values in setField are assumed. The position of a conversion error is that of the first captured token (F6 repaired; bounded check 'capture token run').",
    ref="DESIGN.md section 4, C17"),
  "C18": dict(level="proof",
    text="unquote is proved, by a loop invariant over a recursive spec function transcribed from strconv.Unquote, to return the raw body for back-quoted text and otherwise the concatenation of the characters strconv.UnquoteChar decodes (single bytes stay single bytes), to fail exactly when UnquoteChar fails or the text is shorter than two bytes, and to terminate; Unquote's and Upper's mappers change only Value (type and position untouched) and report errors located at the token; the mapping lexer calls the mapper exactly once per inner token in order; Build's combined mapper applies the all-token mappers then the token type's mappers, each once, on every token. A change that makes the contracts unbindable is still caught with a concrete input by the mapper-order probe (untyped mappers first, then the token type's own, in registration order, 0-5 untyped mappers).",
